@@ -318,6 +318,10 @@ func (r *Redirect) parseAndClearFlashMessages() {
 		r.c.flashMessages = r.c.flashMessages[:0]
 		return
 	}
+
+	// The messages are delivered with this request only: have the client drop the cookie
+	// (a handler that redirects with new messages sets it again).
+	r.c.ClearCookie(FlashCookieName)
 }
 
 // processFlashMessages is a helper function to process flash messages and old input data
